@@ -93,9 +93,7 @@ def _gone(failure, **overrides):
     case = fz.case_of(failure)
     for f in run_case(case, **overrides):
         if f['sub'] == failure['sub'] and f['kind'] == failure['kind']:
-            f2 = dict(f, case=failure['case'], obs=ir.to_jsonable(f.get('obs')))
-            if not _f_real10(f2):
-                return False
+            return False
     return True
 
 
@@ -111,28 +109,6 @@ def _f_nested_bits(failure):
     return _gone(failure, flat_bits=True, definite_any=True)
 
 
-def _f_real10(failure):
-    if failure['kind'] != 'value' or not failure.get('obs'):
-        return False
-    case = fz.case_of(failure)
-    if not fz.real10_present(case['T'], case['v']):
-        return False
-    got = ir.from_jsonable(failure['obs']).get('got')
-    if got is None:
-        return False
-    T = case['T']
-
-    def flt(t, x):
-        if t['k'] == 'REAL' and isinstance(x, tuple) and x[1] == 10:
-            return ('float', '%.10e' % float('%de%d' % (x[0], x[2])))
-        return x
-    try:
-        a = fz.map_values(T, got, flt)
-        b = fz.map_values(T, case['v'], flt)
-    except (OverflowError, ValueError, KeyError):
-        return False
-    return ir.jdump(ir.canon(T, a)) == ir.jdump(ir.canon(T, b))
 
 
-FINDINGS = {'F04-real10-float': _f_real10,
-            'F08-nested-bitstring-segments': _f_nested_bits}
+FINDINGS = {'F08-nested-bitstring-segments': _f_nested_bits}
